@@ -29,7 +29,8 @@ META = {
              "dask._expr (HLGExpr, finalize, optimisation of array/bag/delayed collections)",
              "get_async / threaded.get / multiprocessing.get"],
     "stubbed": ["OS pools -> SimExecutor"],
-    "assumptions": ["dataframe collections are not generated (pyarrow absent)", "floating values are exact "
+    "assumptions": ["dataframe collections run with the pyarrow import stub (no arrow strings/parquet)",
+                    "floating values are exact "
                     "because every scheduler runs the same graph"],
 }
 
